@@ -258,6 +258,16 @@ def opControllerSummary (j : Json) : Except String Json := do
     ("arenaId", match s.arenaId with | some i => Json.num (JsonNumber.fromInt i) | none => Json.null),
     ("playerId", match s.playerId with | some i => Json.num (JsonNumber.fromInt i) | none => Json.null)])])
 
+def opPackShipped (j : Json) : Except String Json := do
+  let files ← strList j "files"
+  let cfg : SetupCfg := { dataPatterns := ← strList j "patterns", scripts := ← strList j "scripts" }
+  let root ← j.getObjValAs? String "root"
+  let script ← j.getObjValAs? String "script"
+  let pkgs := packagesOf files
+  let sh := files.filter (shippedFile files pkgs cfg)
+  let miss := files.filter fun f => neededFile root script f && !shippedFile files pkgs cfg f
+  pure (Json.mkObj [("packages", toJson pkgs), ("shipped", toJson sh), ("missing", toJson miss)])
+
 def opCodecDecode (st : State) (j : Json) : Except String Json := do
   let t ← getTy st j
   let h ← getNat j "h"
@@ -348,6 +358,7 @@ def dispatch (st : State) (op : String) (j : Json) : Except String (State × Jso
   | "version.select" => pureOp st (opVersionSelect j)
   | "sig.bind" => pureOp st (opSigBind j)
   | "controller.summary" => pureOp st (opControllerSummary j)
+  | "pack.shipped" => pureOp st (opPackShipped j)
   | "codec.decode" => pureOp st (opCodecDecode st j)
   | "codec.decodeSeq" => pureOp st (opCodecDecodeSeq st j)
   | "codec.encode" => pureOp st (opCodecEncode st j)
